@@ -18,3 +18,5 @@ func verifSkipJoin(e, other *Active, pt Point64, checkCurrX bool) bool { return 
 func verifSkipMicroFix(op *OutPt) bool { return false }
 
 func verifSplitArea(area1, area2 float64) float64 { return area2 }
+
+func verifGate(obj any) {}
